@@ -134,6 +134,7 @@ type State struct {
 	clock  *Term
 	old    *State // entry snapshot of the root function
 	evEpoch string
+	retBlock *ssa.BasicBlock
 	epochClock *Term
 	heapEpoch string
 	dead   bool
@@ -143,7 +144,7 @@ type State struct {
 func (s *State) top() *Frame { return s.frames[len(s.frames)-1] }
 
 func (s *State) clone() *State {
-	n := &State{pc: s.pc, alloc: s.alloc, clock: s.clock, old: s.old, evEpoch: s.evEpoch, epochClock: s.epochClock, heapEpoch: s.heapEpoch, dead: s.dead}
+	n := &State{pc: s.pc, alloc: s.alloc, clock: s.clock, old: s.old, evEpoch: s.evEpoch, retBlock: s.retBlock, epochClock: s.epochClock, heapEpoch: s.heapEpoch, dead: s.dead}
 	n.frames = make([]*Frame, len(s.frames))
 	for i, f := range s.frames {
 		nf := &Frame{fn: f.fn, root: f.root, env: make(map[ssa.Value]Value, len(f.env)), origin: make(map[ssa.Value]*PtrV, len(f.origin)),
@@ -696,6 +697,24 @@ func (x *Exec) runBlock(st *State, b *ssa.BasicBlock, pred *ssa.BasicBlock, k co
 	x.steps++
 	fr := st.top()
 	if li := loopInfoFor(fr.fn); li != nil {
+		// leaving a loop through its header test: `exit` clauses of that loop
+		if pred != nil {
+			if lp := li.byHeader[pred]; lp != nil && !lp.blocks[b] {
+				if fc := x.w.contracts[funcKey(fr.fn)]; fc != nil {
+					for _, c := range fc.Loops[lp.ord] {
+						if c.Kind != "exit" {
+							continue
+						}
+						g, err := x.evalClauseInFrame(st, fr, c, lp)
+						if err != nil {
+							x.contractError(c, err)
+							continue
+						}
+						x.oblige(st, "loop-exit", fmt.Sprintf("loop%d:%s", lp.ord, c.Label), c.Props, g, token.NoPos)
+					}
+				}
+			}
+		}
 		if lp := li.byHeader[b]; lp != nil {
 			if !x.handleLoopHead(st, fr, lp, b, pred) {
 				return
@@ -758,6 +777,7 @@ func (x *Exec) runInstrs(st *State, b *ssa.BasicBlock, idx int, k cont) {
 			x.runBlock(st, b.Succs[0], b, k)
 			return
 		case *ssa.Return:
+			st.retBlock = b
 			var res []Value
 			for _, r := range in.Results {
 				res = append(res, x.get(st, r))
@@ -1428,7 +1448,7 @@ func (x *Exec) handleLoopHead(st *State, fr *Frame, lp *Loop, b, pred *ssa.Basic
 		for _, c := range fc.Loops[lp.ord] {
 			if c.Kind == "unroll" {
 				unroll = true
-			} else {
+			} else if c.Kind != "exit" {
 				clauses = append(clauses, c)
 			}
 		}
@@ -1721,6 +1741,11 @@ func (x *Exec) havocLoop(st *State, fr *Frame, lp *Loop, b *ssa.BasicBlock) {
 			break
 		}
 		fr.env[phi] = x.havocLike(fr.env[phi], phiName(phi), phi.Type())
+		if t, ok := fr.env[phi].(*Term); ok {
+			for _, f := range x.typeFacts(t, phi.Type(), 0) {
+				st.assume(f)
+			}
+		}
 	}
 	eff := x.w.loopEffects(fr.fn, lp)
 	kinds := map[string]bool{}
